@@ -66,7 +66,10 @@ def py_truediv(eng, a, b):
         if isinstance(a, (int, Fraction)):
             return Fraction(a) / Fraction(b)
         return concretize(to_real(a) / to_real(b))
-    if eng.branch(to_real(b) == 0):
+    if getattr(eng, 'assume_nonzero_div', False):
+        eng.assumptions_used.add('division safety not checked in this program: symbolic denominators are assumed non-zero')
+        eng.assume(to_real(b) != 0)
+    elif eng.branch(to_real(b) == 0):
         raise PyExc('ZeroDivisionError', 'division by zero')
     return concretize(to_real(a) / to_real(b))
 
@@ -86,7 +89,12 @@ def py_pow(eng, a, b):
         return py_truediv(eng, 1, d)
     if isinstance(b, Fraction) and b == Fraction(1, 2):
         return m_sqrt.fn(eng, a)
-    raise Unsupported('power with exponent %r' % (b,))
+    # non-integer / symbolic exponent: an uninterpreted real (positive when the base is)
+    eng.assumptions_used.add('x ** y with a non-integer or symbolic exponent is an uninterpreted real (positive for a positive base)')
+    r = z3.Real(eng.fresh('pow'))
+    if isinstance(a, (int, Fraction)) and a > 0:
+        eng.assume(r > 0)
+    return r
 
 
 def scalar_binop(eng, op, a, b):
@@ -1249,6 +1257,32 @@ def m_floor(eng, x):
     raise Unsupported('floor')
 
 
+@B('exp')
+def m_exp(eng, x):
+    if isinstance(x, (int, Fraction)) and x == 0:
+        return Fraction(1)
+    eng.assumptions_used.add('exp(x) is an uninterpreted positive real')
+    r = z3.Real(eng.fresh('exp'))
+    eng.assume(r > 0)
+    return r
+
+
+@B('log')
+def m_log(eng, x):
+    if isinstance(x, (int, Fraction)):
+        if x <= 0: raise PyExc('ValueError', 'math domain error')
+    elif eng.branch(to_real(x) <= 0):
+        raise PyExc('ValueError', 'math domain error')
+    eng.assumptions_used.add('log(x) is an uninterpreted real')
+    return z3.Real(eng.fresh('log'))
+
+
+@B('fsolve')
+def sp_fsolve(eng, f, x0, *a, **k):
+    eng.assumptions_used.add('scipy.optimize.fsolve is external: it returns a 1-element array holding an unconstrained real')
+    return NVec([z3.Real(eng.fresh('fsolve'))])
+
+
 def _unsupported_fn(name):
     def f(eng, *a, **k):
         raise Unsupported('function %s' % name)
@@ -1331,11 +1365,13 @@ MODULES = {
         'punctuation': _string.punctuation, 'whitespace': _string.whitespace,
     },
     'math': {'sqrt': m_sqrt, 'ceil': m_ceil, 'floor': m_floor,
-             'exp': _unsupported_fn('exp'), 'log': _unsupported_fn('log'),
+             'exp': m_exp, 'log': m_log,
              'sin': _unsupported_fn('sin'), 'cos': _unsupported_fn('cos')},
     'numpy': dict(_np, np=_np_mod, linalg=_np_linalg),
     'numpy.linalg': {'norm': np_norm},
     'functools': {'partial': b_partial},
     'copy': {'copy': b_copy, 'deepcopy': b_deepcopy},
-    'sys': {}, 'os': {}, 'struct': {}, 'collections': {}, 'collections.abc': {},
+    'sys': {}, 'os': {}, 'struct': {}, 'collections': {'Iterable': _TypeTag('Iterable', lambda x: isinstance(x, (list, tuple, NVec, str, dict, set)))},
+    'collections.abc': {'Iterable': _TypeTag('Iterable', lambda x: isinstance(x, (list, tuple, NVec, str, dict, set)))},
+    'scipy.optimize': {'fsolve': sp_fsolve},
 }
